@@ -40,13 +40,22 @@ def _before(inputs):
     return {k: (SNAP[id(v)][1] if id(v) in SNAP and SNAP[id(v)][0] is v else digest(v)) for k, v in inputs.items()}
 
 
+def _la():
+    """Link lengths; the links of the pendant node 5 have length N (= 6), so that a shortest weighted path
+    coincides with the placeholder some measures temporarily write over unconnected pairs."""
+    la = families.link_attr(1)
+    for i, j in ((0, 5), (4, 5), (3, 5)):
+        la[i, j] = la[j, i] = 6.0
+    return la
+
+
 # ---- objects built from caller-owned arrays (so that the arrays can be checked afterwards)
 def _net_inputs(directed=False, token=1, cls=None):
     from pyunicorn.core import Network
     Network = cls or Network
     A = V(families.ADJ[directed][token])
     w = V(families.WEIGHTS[1])
-    la = V(families.link_attr(1))
+    la = V(_la())
     net = Network(adjacency=A, directed=directed, node_weights=w, silence_level=3)
     net.set_link_attribute("w", la)
     return net, {"adjacency": A, "node_weights": w, "link_attribute": la}
@@ -341,7 +350,7 @@ def _f_interacting():
     from pyunicorn.core import InteractingNetworks
     A = V(families.ADJ[False][1])
     w = V(families.WEIGHTS[1])
-    la = V(families.link_attr(1))
+    la = V(_la())
     net = InteractingNetworks(A, node_weights=w, silence_level=3)
     net.set_link_attribute("w", la)
     n1, n2 = [0, 1, 2], [3, 4, 5]
